@@ -4,7 +4,7 @@
   verif.py setup                      build everything from files on disk (offline)
   verif.py check Cxx [--tier quick|thorough] [--replay file]
   verif.py manifest                   regenerate MANIFEST.json from checks/*.py
-  verif.py audit                      grep audit + clean rebuild + coqchk (thorough, once per tree)
+  verif.py make [targets]             locked `make -j16` in coq/ (e.g. theories/Properties/C17.vo)
 """
 import argparse
 import importlib.util
@@ -35,7 +35,7 @@ def all_checks():
 
 def cmd_setup(args):
     os.makedirs(corr.WORK, exist_ok=True)
-    rc, out = corr.coq_make(["all"] if False else [], timeout=7000)
+    rc, out = corr.coq_make([], timeout=7000)
     print(out[-3000:])
     if rc != 0:
         print("setup: coq build failed (checks will report it per property)")
@@ -46,6 +46,12 @@ def cmd_setup(args):
             rc2, out2 = corr.go_build("./cmd/" + h, os.path.join(corr.WORK, "bin", pid.lower()))
             print("go build %s: %s" % (h, "ok" if rc2 == 0 else out2[-2000:]))
     return 0
+
+
+def cmd_make(args):
+    rc, out = corr.coq_make(args.targets)
+    print(out[-6000:])
+    return rc
 
 
 def cmd_check(args):
@@ -104,9 +110,11 @@ def main():
     c.add_argument("--tier", choices=["quick", "thorough"])
     c.add_argument("--replay")
     sub.add_parser("manifest")
+    m = sub.add_parser("make")
+    m.add_argument("targets", nargs="*")
     args = ap.parse_args()
     os.chdir(ROOT)
-    rc = {"setup": cmd_setup, "check": cmd_check, "manifest": cmd_manifest}[args.cmd](args)
+    rc = {"setup": cmd_setup, "check": cmd_check, "manifest": cmd_manifest, "make": cmd_make}[args.cmd](args)
     sys.exit(rc)
 
 
